@@ -350,7 +350,18 @@ func build(c *Case) (*scenario, error) {
 			case <-time.After(time.Hour):
 			}
 		}
+		// not needed for success: the LF after the reply's framing and, on an echoing transport,
+		// the echo of the return(s) the client types after its request (the server answers as
+		// soon as the request is complete, so that echo follows the reply)
 		s.trailing = 1
+		if c.Echo {
+			s.trailing++
+
+			if c.Version == "1.1" {
+				s.trailing++
+			}
+		}
+
 		s.single = true
 		s.next = func() (string, error) {
 			r, e := d.GetConfig("running")
@@ -457,42 +468,66 @@ func exactOpt(c *Case) []util.Option {
 	return nil
 }
 
-// dryRun learns the length of the exchange.
-func dryRun(c *Case) (length int, err error) {
+// quiesce waits (virtual time) until everything the device produced so far has been delivered.
+func quiesce(p *sim.Pipe) {
+	for i := 0; i < 2000 && p.PendingLen() > 0; i++ {
+		time.Sleep(time.Millisecond)
+	}
+
+	time.Sleep(20 * time.Millisecond)
+}
+
+// dryRun learns the length of the exchange and how long it takes when nothing stalls.
+func dryRun(c *Case) (length int, took time.Duration, err error) {
 	s, err := build(c)
 	if err != nil {
-		return 0, err
+		return 0, 0, err
 	}
 
 	defer s.pipe.Release()
 
 	if err = s.prepare(); err != nil {
-		return 0, fmt.Errorf("prepare: %w", err)
+		return 0, 0, fmt.Errorf("prepare: %w", err)
 	}
 
-	time.Sleep(20 * time.Millisecond) // let stale bytes of the preparation drain
+	quiesce(s.pipe) // let stale bytes of the preparation drain
 
 	start := s.pipe.Produced()
+	t0 := time.Now()
 
 	res, err := s.op(exactOpt(c))
 	if err != nil {
-		return 0, fmt.Errorf("unstalled operation failed: %w", err)
+		return 0, 0, fmt.Errorf("unstalled operation failed: %w", err)
 	}
+
+	took = time.Since(t0)
 
 	if s.wantResult != "" && strings.TrimSpace(res) != strings.TrimSpace(s.wantResult) {
-		return 0, fmt.Errorf("unstalled operation returned %q, want %q", res, s.wantResult)
+		return 0, 0, fmt.Errorf("unstalled operation returned %q, want %q", res, s.wantResult)
 	}
 
-	time.Sleep(20 * time.Millisecond)
+	quiesce(s.pipe)
 
 	length = s.pipe.Produced() - start
+
+	if os.Getenv("DBG_CASE") != "" {
+		var all []byte
+		for _, e := range s.pipe.Events() {
+			if e.Kind == "r" {
+				all = append(all, e.Data...)
+			}
+		}
+
+		fmt.Printf("DRY start=%d produced=%d delivered=%d tail=%q\n", start, s.pipe.Produced(), len(all), all[max(0, len(all)-30):])
+	}
+
 	s.closeF()
 
-	return length, nil
+	return length, took, nil
 }
 
 func run(c Case) ev.Verdict {
-	length, err := dryRun(&c)
+	length, dryTook, err := dryRun(&c)
 	if err != nil {
 		return ev.Fail("dry run (%s): %v", c.Op, err)
 	}
@@ -522,7 +557,7 @@ func run(c Case) ev.Verdict {
 		return ev.Fail("prepare: %v", err)
 	}
 
-	time.Sleep(20 * time.Millisecond)
+	quiesce(s.pipe)
 
 	// stall: relative to what the device has produced (stale bytes of the preparation included)
 	start := s.pipe.Produced()
@@ -621,6 +656,12 @@ func run(c Case) ev.Verdict {
 	elapsed := time.Since(t0)
 
 	if k >= decisive {
+		if got.err != nil && errors.Is(got.err, util.ErrTimeoutError) && applicable < 2*dryTook+10*time.Millisecond {
+			// the timeout in force is simply shorter than this segmentation needs to deliver the
+			// exchange (the unstalled run took dryTook): says nothing about stalls
+			return ev.Verdict{OK: true, Infeasible: true, Classes: []string{"timeout-shorter-than-transit"}}
+		}
+
 		if got.err != nil {
 			return ev.Fail("%s: all %d needed bytes were delivered (stall after %d) but the call failed: %v", c.Op, decisive, k, got.err)
 		}
